@@ -45,7 +45,7 @@ def tasks(tier):
         for nn, nt in ((17, "Simplified"), (24, "Full")) if q else ((17, "Simplified"), (24, "Full"), (33, "ActiveSet")):
             t.append(dict(module="steps", fn="h_large", shape=dict(solver=sv, n=nn, newton=nt, fmt="coo" if nn == 17 else "csr"), opts=dict(timeout_ms=60000)))
     # two consecutive steps of one method object (the active set may change in between)
-    seqs = [("Standard", "ActiveSet"), ("Symmetric", "ActiveSet"), ("Extended", "Full")] if q else [(sv, nt) for sv in steps.SOLVERS for nt in ("ActiveSet", "Full", "Simplified")]
+    seqs = [("Standard", "ActiveSet"), ("Symmetric", "ActiveSet"), ("Extended", "Full"), ("Standard", "Full"), ("Symmetric", "Full")] if q else [(sv, nt) for sv in steps.SOLVERS for nt in ("ActiveSet", "Full", "Simplified")]
     for sv, nt in seqs:
         t.append(dict(module="steps", fn="h_sequence", shape=dict(vars=["boxed"], cons=["eq0"], solver=sv, newton=nt), opts=dict(of if sv == "Asymmetric" else o, point_consistency=True)))
     for sv in ("Standard", "Asymmetric") if q else steps.SOLVERS:
